@@ -412,3 +412,126 @@ def r02_python(chk):
         st = stmt_of(fn, call)
         ok = isinstance(st, ast.AugAssign) and isinstance(st.op, ast.Add) and norm(st.target) == 'k0' and st.value is call
         chk.ob('R02.7', ok, PANEL, fname, '%s accumulation' % kname, line=call.lineno, expected='k0 += %s(...)' % kname, got=norm(st))
+
+
+# --------------------------------------------------------------------------
+# generic dispatch helper
+
+
+def branch_polarity(fn, call, cond_texts):
+    """polarity list of the enclosing tests whose text is in cond_texts"""
+    return [pol for t, pol in enclosing_tests(fn, call) if norm(t) in cond_texts]
+
+
+SUB_COND = {'self.y1isnotNoneandself.y2isnotNone', 'y1isnotNoneandy2isnotNone'}
+
+
+def r03_python(chk):
+    from .panelk import MODELS, NUM_MODELS
+    check_finalize_path(chk, 'R03.3', PANEL, 'Panel', 'calc_kG0', 'kG0')
+    fn, cfg = rebuild_first(chk, 'R03.3', PANEL, 'Panel', 'calc_kG0', {'fkG0', 'fkG0y1y2', 'fkG_num'})
+    defs = local_defs(fn)
+    fname = 'Panel.calc_kG0'
+    N = {'Nxx': 'self.Nxx|0.0', 'Nyy': 'self.Nyy|0.0', 'Nxy': 'self.Nxy|0.0'}
+    base = {'panel': 'self', 'size': 'size', 'row0': 'row0', 'col0': 'col0'}
+    for kname, exp in (('fkG0y1y2', dict(base, y1='self.y1', y2='self.y2', **N)), ('fkG0', dict(base, **N))):
+        calls = attr_calls(fn, kname)
+        chk.need(len(calls) == 1, '%s: expected exactly one %s call' % (fname, kname))
+        for model, rel in MODELS.items():
+            check_binding(chk, 'R03.3', PANEL, fn, fname, calls[0], kernel_sig(rel, kname), exp,
+                          '%s call vs %s signature' % (kname, model), defs)
+        pol = branch_polarity(fn, calls[0], SUB_COND)
+        chk.ob('R03.3', pol == [kname.endswith('y1y2')], PANEL, fname, '%s branch' % kname, line=calls[0].lineno,
+               expected='sub-interval kernel iff y1 and y2 are set', got=[(norm(t), p) for t, p in enclosing_tests(fn, calls[0])])
+        polc = branch_polarity(fn, calls[0], {'cisNone'})
+        chk.ob('R03.3', polc == [True], PANEL, fname, '%s analytic branch' % kname, line=calls[0].lineno,
+               expected='analytic kernel iff c is None', got=polc)
+    calls = attr_calls(fn, 'fkG_num')
+    chk.need(len(calls) == 1, '%s: expected exactly one fkG_num call' % fname)
+    for model, rel in NUM_MODELS.items():
+        check_binding(chk, 'R03.3', PANEL, fn, fname, calls[0], kernel_sig(rel, 'fkG_num'),
+                      {'cs': {'c', 'np.ascontiguousarray(c,dtype=DOUBLE)'}, 'Finput': 'Fnxny', 'panel': 'self', 'size': 'size', 'row0': 'row0',
+                       'col0': 'col0', 'nx': {'nx', 'self.nxifnxisNoneelsenx'}, 'ny': {'ny', 'self.nyifnyisNoneelseny'}, 'NLgeom': 'int(NLgeom)'},
+                      'fkG_num call vs %s signature' % model, defs)
+    polc = branch_polarity(fn, calls[0], {'cisNone'})
+    chk.ob('R03.3', polc == [False], PANEL, fname, 'fkG_num branch', line=calls[0].lineno, expected='numeric kernel iff c is given', got=polc)
+    # the numeric kernel comes from the matrices_num table, the analytic ones from matrices
+    mats = [(norm(v), [p for t, p in enclosing_tests(fn, v) if norm(t) == 'cisNone']) for v in defs.get('matrices', []) if v is not None]
+    want = {("modelDB.db[self.model]['matrices']", True), ("modelDB.db[self.model]['matrices_num']", False)}
+    got = {(m, p[0] if p else None) for m, p in mats}
+    chk.ob('R03.3', got == want, PANEL, fname, 'kernel table selection', expected=sorted(want), got=sorted(got, key=str))
+    # Panel.lb forwards c, nx, ny, Fnxny
+    m = module(PANEL)
+    lb = m.method('Panel', 'lb')
+    calls = [c for c in attr_calls(lb, 'calc_kG0')]
+    chk.need(len(calls) == 1, 'Panel.lb: expected one calc_kG0 call')
+    check_binding(chk, 'R03.3', PANEL, lb, 'Panel.lb', calls[0], Sig(fn, drop_self=True),
+                  {'c': 'c', 'nx': {'nx', 'self.nxifnxisNoneelsenx'}, 'ny': {'ny', 'self.nyifnyisNoneelseny'}, 'Fnxny': 'Fnxny'}, 'calc_kG0 call', local_defs(lb))
+
+
+def laminate_offset_sign(chk):
+    """+1 if a positive offset moves the laminate to z in [d-t/2, d+t/2]"""
+    from .poly import from_ast, P
+    m = module('compmech/composite/laminate.py')
+    fn = m.method('Laminate', 'calc_constitutive_matrix')
+    for st in fn.body:
+        if isinstance(st, ast.Assign) and isinstance(st.targets[0], ast.Name) and st.targets[0].id == 'h0':
+            v = from_ast(st.value, {})
+            c = v.coeff_of('self.offset')
+            if c == P.const(1):
+                return 1
+            if c == P.const(-1):
+                return -1
+    raise AnalysisError('cannot read the offset convention of Laminate.calc_constitutive_matrix')
+
+
+def r04_python(chk, conv):
+    from .panelk import MODELS
+    check_finalize_path(chk, 'R04.4', PANEL, 'Panel', 'calc_kM', 'kM')
+    m = module(PANEL)
+    fn = m.method('Panel', 'calc_kM')
+    defs = local_defs(fn)
+    fname = 'Panel.calc_kM'
+    s_lam = laminate_offset_sign(chk)
+    # the laminate offset of calc_k0 is the same attribute
+    k0 = m.method('Panel', 'calc_k0')
+    rs = attr_calls(k0, 'read_stack')
+    lam_off = None
+    if rs:
+        mp, _ = bind(rs[0], Sig(module('compmech/composite/laminate.py').function('read_stack')))
+        lam_off = resolve(k0, mp.get('offset')) if mp.get('offset') is not None else None
+    base = {'panel': 'self', 'size': {'size', 'self.get_size()'}, 'row0': 'row0', 'col0': 'col0'}
+    for kname, exp in (('fkMy1y2', dict(base, y1='self.y1', y2='self.y2')), ('fkM', dict(base))):
+        calls = attr_calls(fn, kname)
+        chk.need(len(calls) == 1, '%s: expected exactly one %s call' % (fname, kname))
+        call = calls[0]
+        pol = branch_polarity(fn, call, SUB_COND)
+        chk.ob('R04.4', pol == [kname.endswith('y1y2')], PANEL, fname, '%s branch' % kname, line=call.lineno,
+               expected='sub-interval kernel iff y1 and y2 are set', got=pol)
+        for model, rel in MODELS.items():
+            sig = kernel_sig(rel, kname)
+            check_binding(chk, 'R04.4', PANEL, fn, fname, call, sig, exp, '%s call vs %s signature' % (kname, model), defs)
+            mp, _ = bind(call, sig)
+            dpar = sig.names[2 if kname.endswith('y1y2') else 0]
+            darg = mp.get(dpar)
+            txt = resolve(fn, darg, defs) if darg is not None else None
+            s_arg = None
+            if txt == lam_off:
+                s_arg = 1
+            elif txt is not None and lam_off is not None and txt in ('-' + lam_off, '-(%s)' % lam_off, '-1*' + lam_off, '-1.0*' + lam_off):
+                s_arg = -1
+            s_k = conv.get((model, kname))
+            if s_k is None:
+                ok = False
+                detail = 'kernel is not a kinetic-energy Hessian under either sign convention (see R04.1)'
+            elif s_k == 0:
+                ok = True
+                detail = ''
+            else:
+                ok = s_arg is not None and s_k * s_arg == s_lam
+                detail = ('kernel %s.%s is the kinetic energy of a plate at z in [%+d*d - h/2, %+d*d + h/2]; the call passes d = %s '
+                          'while the laminate built from offset=%s lies at z in [%+d*offset - t/2, ...]' % (model, kname, s_k, s_k, txt, lam_off, s_lam))
+            chk.ob('R04.2', ok, PANEL, fname, '%s offset convention (%s)' % (kname, model), line=call.lineno,
+                   expected='mass kernel and laminate use the same sign of the reference-surface offset',
+                   got='kernel sign %s, argument %s, laminate sign %+d' % (s_k, txt, s_lam), detail=detail,
+                   sample='%s(%s): kernel convention %s, laminate %+d' % (kname, txt, s_k, s_lam))
